@@ -439,9 +439,16 @@ def cases(tier, seed):
         out.append({"stream": "impossible-rejected", "fn": "invalid", "args": [seed * 100043 + i, 300]})
         out.append({"stream": "inverse-of-renderers", "fn": "inverse", "args": [seed * 100057 + i, 100]})
         out.append({"stream": "mutated-and-regex-groups", "fn": "mutated", "args": [seed * 100069 + i, 400]})
-    # the reproduced defect's documented witnesses, always present
+    # the documented witnesses of finding rs-ordinal-month-end (repaired: they must now PASS the oracle in both backends), always present
     out.append({"stream": "witnesses", "fn": "strings", "args": ["iso", 1, None, ["2021-031", "2021-365", "2021-W13-3", "2021W133", "2020-W53-4", "2021-030", "2021-W13-2"]]})
+    out += witness_dates()
     return out
+
+
+def witness_dates():
+    """the former failing inputs of finding rs-ordinal-month-end as dated cases WITH an expectation (the `strings` case above only ties model and
+    implementation): ordinal and week forms of month ends of a common and a leap year, through parse_iso8601 and through pendulum.parse"""
+    return [{"stream": "witnesses", "fn": "dates", "args": [y, "ends", list(FORMS[2:]), api]} for y in (2021, 2020) for api in ("iso", "top")]
 
 
 def search_cases(seed):
@@ -671,7 +678,8 @@ def _failures(c, backend, r):
 def _classify(it, backend, got, compact):
     form = it["form"]
     rejected = (got == -1) if compact else (isinstance(got, list) and got[0] == 1)
-    # Rust ordinal_to_ymd compares `ord < MONTHS_OFFSETS[leap][i]`: last day of a month in ordinal/week form is rejected
+    # finding rs-ordinal-month-end (status fixed: the runner reports a reproduction as a VIOLATION): Rust ordinal_to_ymd compared
+    # `ord < MONTHS_OFFSETS[leap][i]`, so the last day of a month in ordinal/week form was rejected by the compiled parser
     if backend == "rs" and form[:3] in ("ord", "wee") and it.get("monthend") == 1 and rejected and it["exp"] != "reject":
         return "rs-ordinal-month-end"
     # week 00 / weekday 0 are accepted by both backends (mapped to the week before week 1 / the day before Monday)
@@ -707,8 +715,9 @@ def known(c, backend, r):
 
 LEVEL_TEXT = ("Machine-checked Coq theorems about executable models of both ISO 8601 parsers (Rust: hand model of the recursive descent and the pyo3 glue; "
               "Python: the generated regex AST run by a Coq backtracking matcher plus translated integer post-match code): the ordinal-day and ISO-week "
-              "conversions equal the proleptic Gregorian calendar of Spec/Cal.v for every year (the Rust ordinal conversion is REFUTED on month ends and "
-              "proved on the rest), n-digit fields / fractions / offsets parse to their value, and the extended calendar form round-trips; plus a "
+              "conversions of BOTH backends equal the proleptic Gregorian calendar of Spec/Cal.v for every year and every day / week date, month ends "
+              "included (the compiled parser's off-by-one on month ends, finding rs-ordinal-month-end, is repaired and its full-strength theorems "
+              "ordinal_rs_spec / week_rs_spec / ordinal_rs_eq_py / week_rs_eq_py are proved), n-digit fields / fractions / offsets parse to their value, and the extended calendar form round-trips; plus a "
               "three-way correspondence (implementation both backends / model / the value each string was rendered from), exhaustive over all dates "
               "1583..9999 in six forms in the thorough tier.")
 DESIGN_REF = "DESIGN.md section 4 C07"
